@@ -305,6 +305,15 @@ func (r *replica) doSave(req rsm.SSRequest) {
 		}
 		vfhelp.Fail(r.env.t, "save-error", "%s: Save returned %v", r.name, err)
 	}
+	if r.store != nil && !req.Exported() {
+		// IOnDiskStateMachine: only what Sync() covered survives a crash, and
+		// concurrentSave prepares, syncs, then writes the record: the record
+		// must not promise more than the user state machine has made durable
+		if got := r.store.states[r.store.synced].Last; got < ss.OnDiskIndex {
+			vfhelp.Fail(r.env.t, "consave-ondisk-snapshot-ahead-of-synced-state", "%s: Save returned the snapshot record index %d OnDiskIndex %d, the last Sync() of the user state machine covered entries up to %d only",
+				r.name, ss.Index, ss.OnDiskIndex, got)
+		}
+	}
 	ok, err := inc.snap.commit(ss, req)
 	if err != nil {
 		vfhelp.Fail(r.env.t, "save-commit-error", "%s: commit of snapshot %d failed: %v", r.name, ss.Index, err)
